@@ -381,6 +381,20 @@ inline SingleSketchRef& single_sketch_ref(unsigned lg_k) {
   return *refs[lg_k];
 }
 
+// ---------------------------------------------------------------- u64 inputs with coupon value >= 15 (2^22-key scan, once per process)
+inline const std::vector<uint64_t>& high_value_keys() {
+  static std::vector<uint64_t> keys;
+  static bool built = false;
+  if (!built) {
+    built = true;
+    for (uint64_t i = 0; i < (1u << 22); ++i) {
+      const uint64_t x = i * 0x9e3779b97f4a7c15ULL + 12345;
+      if (cp_value(coupon_of_hash(ref_hash_u64(x, HLL_HASH_SEED))) >= 15) keys.push_back(x);
+    }
+  }
+  return keys;
+}
+
 inline bool rel_eq(double a, double b, double tol) {
   if (a == b) return true;
   if (std::isnan(a) || std::isnan(b)) return false;
